@@ -31,7 +31,7 @@ REPO_CURVES = [
 ]
 
 FAMILIES = ['noise', 'mono_dec', 'convex', 'concave', 'pwl_dyadic', 'pwl_rational',
-            'pwl_decimal', 'plateau', 'flat', 'outlier', 'repo', 'trace', 'steps', 'quant']
+            'pwl_decimal', 'plateau', 'flat', 'outlier', 'repo', 'trace', 'steps', 'quant', 'offset', 'ulp']
 
 
 @functools.lru_cache(maxsize=None)
@@ -212,6 +212,28 @@ def curves(draw, min_n=2, max_n=40, families=None, integer_x=False, y01=False, s
         if y01:
             m = max(y) or 1.0
             y = [v / m for v in y]
+    elif fam == 'offset':   # counter-like ordinate: large common offset, small variation
+        off = draw(st.sampled_from([1e6, 3.2e9, 1e4]))
+        var = draw(st.lists(st.integers(0, 200), min_size=n, max_size=n))
+        if draw(st.booleans()):
+            var = sorted(var, reverse=True)
+        y = [off + v for v in var]
+        if y01:
+            m = max(y) or 1.0
+            y = [v / m for v in y]
+    elif fam == 'ulp':      # a floor whose heights differ by a few units in the last place
+        import numpy as _np
+        v = draw(st.sampled_from([0.3, 1.0, 0.1, 7.0]))
+        js = draw(st.lists(st.integers(-3, 3), min_size=n, max_size=n))
+        y = []
+        for j in js:
+            w = v
+            for _ in range(abs(j)):
+                w = float(_np.nextafter(w, _np.inf if j > 0 else -_np.inf))
+            y.append(w)
+        head = draw(st.integers(0, max(0, n // 3)))
+        for i in range(head):                 # optional decreasing lead-in
+            y[i] = v * (1.0 + (head - i))
     elif fam == 'flat':
         v = draw(st.sampled_from([0.0, 1.0, 0.5, 3.0]))
         y = [v] * n
